@@ -388,8 +388,35 @@ func (d *deepView) bufferSeq(obj dval, at ssa.Instruction, atFr *frame, depth in
 		var add []bseg
 		okAdd := true
 		// the range-over-literal idiom: one write per element of the literal
-		if id == "encoding/binary.Write" && touches == 0 && inLoop(di.fr.fn, di.i.Block()) {
-			if iv, n, isLit := d.rangeLiteral(args[2], di.fr); isLit && n <= 32 {
+		// ... also when the write sits in a helper called from the loop body with
+		// the element as its argument
+		var loopVal ssa.Value
+		loopFr, loopAt := di.fr, ssa.Instruction(di.i)
+		if id == "encoding/binary.Write" && len(args) > 2 {
+			loopVal = args[2]
+		}
+		for hops := 0; hops < 3 && loopVal != nil && !inLoop(loopFr.fn, loopAt.Block()); hops++ {
+			p, isP := loopVal.(*ssa.Parameter)
+			if !isP || loopFr.parent == nil || loopFr.site == nil || p.Parent() != loopFr.fn {
+				break
+			}
+			if _, isClosure := loopFr.site.Common().Value.(*ssa.MakeClosure); isClosure {
+				break
+			}
+			idx := -1
+			for k, q := range loopFr.fn.Params {
+				if q == p {
+					idx = k
+				}
+			}
+			pargs := ir.CallArgs(loopFr.site)
+			if idx < 0 || idx >= len(pargs) {
+				break
+			}
+			loopVal, loopAt, loopFr = pargs[idx], loopFr.site, loopFr.parent
+		}
+		if loopVal != nil && touches == 0 && inLoop(loopFr.fn, loopAt.Block()) {
+			if iv, n, isLit := d.rangeLiteral(loopVal, loopFr); isLit && n <= 32 {
 				order := byteOrderOf(d.resolve(args[1], di.fr).v)
 				if o := byteOrderOf(args[1]); o != "?" {
 					order = o
